@@ -54,7 +54,13 @@ def c05():
     return [intmode.GuardRestores()]
 
 
+def c19():
+    from harness import atomic
+    return [atomic.AtomicWrite()]
+
+
 REGISTRY = {
+    'C19': dict(harnesses=c19, run=_runner('C19', c19)),
     'C05': dict(harnesses=c05, run=_runner('C05', c05)),
     'C09': dict(harnesses=c09, run=_runner('C09', c09)),
     'C15': dict(harnesses=c15, run=_runner('C15', c15)),
